@@ -43,7 +43,7 @@ def cell_tree(v):
     if isinstance(v, (int, np.integer)):
         return {"i": str(int(v))}
     if isinstance(v, (float, np.floating)):
-        return {"f": "nan" if math.isnan(v) else float(v).hex()}
+        return {"f": "nan" if math.isnan(v) else (float(v) + 0.0).hex()}  # -0.0 and 0.0 are one rational
     if isinstance(v, datetime):
         return {"d": [v.toordinal(), v.hour * 3600 + v.minute * 60 + v.second]}
     if isinstance(v, (tuple, list)) and all(isinstance(x, str) for x in v):
@@ -60,7 +60,7 @@ def val_tree(v):
             return {"o": [[hexs(n), [cell_tree(x) for x in v[n].tolist()] if v[n].dtype != object else
                            [cell_tree(x) for x in v[n]]] for n in v.dtype.names]}
         if v.ndim == 2:
-            return {"m": [[float(x).hex() for x in row] for row in v]}
+            return {"m": [[(float(x) + 0.0).hex() for x in row] for row in v]}
         v = np.atleast_1d(v)
         if v.dtype == object:
             return [cell_tree(x) for x in v]
@@ -86,6 +86,8 @@ def model_tree(t):
             return {"m": [[float(Fraction(x)).hex() for x in row] for row in t["m"]]}
         if "o" in t:
             return {"o": [[k, model_tree(v)] for k, v in t["o"]]}
+        if "meta" in t:
+            return {k: model_tree(v) for k, v in t.items()}
         return t
     if isinstance(t, list):
         return [model_tree(x) for x in t]
@@ -116,6 +118,8 @@ def tree_diff(a, b, loose=False, path=""):
                 if abs(x - y) <= 8e-16 * max(abs(x), abs(y), 1e-300):
                     return None
             return f"{path}: {a} vs {b}"
+        if "meta" in a and "meta" in b:
+            return tree_diff(a["meta"], b["meta"], loose, "meta") or tree_diff(a["data"], b["data"], loose, "data")
         if a != b:
             return f"{path}: {a} vs {b}"
         return None
@@ -143,6 +147,8 @@ def rnd_text(rng, width, chars=TEXT_CHARS, inner_blank=True, full=None, allow_em
         full = rng.random() < 0.35
     n = width if full else rng.randint(1, width)
     s = [rng.choice(chars) for _ in range(n)]
+    if chars is TEXT_CHARS and n > 1 and rng.random() < 0.04:
+        s[rng.randrange(n)] = "#"  # an ordinary character in SINEX; numpy's default comment marker
     if inner_blank and n > 2:
         for i in range(1, n - 1):
             if rng.random() < 0.12:
@@ -255,7 +261,7 @@ def render_row(fields, texts, lead=" "):
         assert len(t) <= width, (name, t, width)
         cellt = t.rjust(width) if kind in ("int", "flt", "exp") else t.ljust(width)
         line[start:start + width] = list(cellt)
-    return "".join(line).rstrip()
+    return "".join(line).rstrip() or lead[0]  # an all-blank record keeps its lead character
 
 
 def expected_of(kind, text, exp):
@@ -508,6 +514,10 @@ def check_block_values(ctx, case, marker, block, got_cols, keyprefix=""):
             return False
         for i, (texts, exps) in enumerate(block.rows):
             if not value_matches(exps[j], col[i]):
+                if any("#" in t for t in texts):
+                    ctx.violate("record-containing-#", f"{marker} row {i} field {name}: columns hold {texts[j]!r}, parser returned "
+                                f"{col[i]!r} (the record contains a '#')", {**case, "row": i, "field": name, "text": texts[j]})
+                    return False
                 ctx.violate(f"{keyprefix}{marker}:{name}:{block.fields[j][3]}",
                             f"{marker} row {i} field {name}: columns hold {texts[j]!r}, parser returned {col[i]!r}",
                             {**case, "row": i, "field": name, "text": texts[j]})
@@ -660,6 +670,8 @@ def site_case(ctx, impl, drv, spec, rng, quick, kind):
             for s in order:
                 r = gen_rows(rng, fields, 1, sites=[s])
                 rows += r
+            if rows and rng.random() < 0.04:  # the same site code under another point code (legal in SINEX)
+                rows += gen_rows(rng, fields, 1, sites=[rng.choice(order)])
             blocks.append(GenBlock(m, fields, rows))
         else:
             nrows = rng.choice([0, 1, 1, 2]) if rng.random() < 0.3 else rng.randint(0, maxrows)
@@ -884,7 +896,7 @@ def run(ctx: Ctx):
     ctx.trusted += ["np.genfromtxt fixed-width splitting / autostrip / loose converter calls are modelled, not verified",
                     "Spec/Sinex202.lean columns typed from the SINEX 2.02 document",
                     "float(text) is compared with the correctly rounded double of the model's exact rational"]
-    ctx.assumptions += ["ASCII text; no '#' inside fields (genfromtxt comment character)",
+    ctx.assumptions += ["ASCII text",
                         "SITE/GAL_PHASE_CENTER (empty field table, TODO in the source) is not exercised",
                         "sinex_tms: tables regenerated and checked by the table theorems; its file level is not modelled"]
     try:
